@@ -247,7 +247,7 @@ pub unsafe extern "C" fn dup2(old: c_int, new: c_int) -> c_int {
         return -1;
     }
     if !valid_fd(old) || new < 0 || new as usize >= NFD {
-        return fail(libc::EBADF);
+        return proc_::child_kernel_refusal(libc::EBADF);
     }
     if old != new {
         FDT[new as usize] = FdEnt {
@@ -385,6 +385,7 @@ pub fn link_model() {
         sig::pthread_sigmask as *const () as usize,
         sig::signal as *const () as usize,
         env::getenv as *const () as usize,
+        env::getrandom as *const () as usize,
         time::clock_gettime as *const () as usize,
         time::nanosleep as *const () as usize,
         time::clock_nanosleep as *const () as usize,
